@@ -579,3 +579,42 @@ Definition reply_eqb (a b : reply) : bool :=
 Definition agree (fixF1 fixF2 : bool) (sch ali seed : N) (rs : list req) : bool :=
   forallb (fun pr => reply_eqb (fst pr) (snd pr))
           (run fixF1 fixF2 (srv_init sch ali seed) (spec_init sch ali) rs).
+
+(* ------------------------------------------------------------------ *)
+(* histories for which the refinement theorem is stated                *)
+
+(* split the stack at the newest savepoint called n: (released group incl. n, rest) *)
+Fixpoint split_stk (n : name) (st : list (name * pay))
+  : option (list (name * pay) * list (name * pay)) :=
+  match st with
+  | [] => None
+  | (m, p) :: rest =>
+      if N.eqb m n then Some ([(m, p)], rest)
+      else match split_stk n rest with
+           | Some (g, r) => Some ((m, p) :: g, r)
+           | None => None
+           end
+  end.
+
+(* RELEASE n is "safe" when no savepoint of the released group shares its name with a
+   savepoint that stays alive below the group.  (The server never learns about RELEASE;
+   a released savepoint that shadows a live one is the known finding C09-F3.) *)
+Definition release_safe (p : spec) (n : name) : bool :=
+  match split_stk n (p_stack p) with
+  | None => true
+  | Some (g, rest) =>
+      forallb (fun e => negb (existsb (N.eqb (fst e)) (map fst rest))) g
+  end.
+
+Definition req_ok (p : spec) (r : req) : bool :=
+  match r with
+  | Req (BStmt (SRelease n)) _ _ cali =>
+      if p_abort p then true else release_safe (spec_client p cali) n
+  | _ => true
+  end.
+
+Fixpoint hist_ok (p : spec) (rs : list req) : bool :=
+  match rs with
+  | [] => true
+  | r :: rs' => req_ok p r && hist_ok (fst (spec_step p r)) rs'
+  end.
